@@ -452,10 +452,10 @@ func serveStress(s *Summary, rng *rand.Rand, n int, out *traceWriter) {
 		opts := []func(*rux.Router){}
 		cacheCap := -1
 		if t%2 == 0 {
-			cacheCap = (t / 2) % 3
+			cacheCap = (t/2 + 1) % 3
 			opts = append(opts, cachingOpts(cacheCap)...)
 		}
-		if rng.Intn(2) == 0 {
+		if rng.Intn(2) == 0 || t%4 >= 2 {
 			opts = append(opts, rux.HandleMethodNotAllowed)
 		}
 		encoded := t%3 == 1 // UseEncodedPath: routes are matched on the escaped path, parameters are the escaped segments
@@ -468,7 +468,18 @@ func serveStress(s *Summary, rng *rand.Rand, n int, out *traceWriter) {
 			gcap, mwcap = sh[0]+1, sh[2]+1
 		}
 		r, _ := buildShape(p, sh[0], gcap, sh[2], mwcap, opts...)
-		r.POST("/onlypost", p.handler([]any{"main", "p"}))
+		r.Add("/onlypost", p.handler([]any{"main", "p"}), "POST", "PUT", "DELETE") // (several methods in non-alphabetical order: the Allow list of a 405 gets sorted)
+		if t%4 >= 2 {
+			// an application's own 405 handler that edits the list of allowed methods it was given (its request's data)
+			r.NotAllowed(func(c *rux.Context) {
+				al, _ := c.SafeGet(rux.CTXAllowedMethods).([]string)
+				for i := range al {
+					al[i] = strings.ToUpper(al[i])
+				}
+				c.SetHeader("Allow", strings.Join(al, ","))
+				c.SetStatus(405)
+			})
+		}
 		workers := 2 + rng.Intn(7)
 		per := 150 + rng.Intn(150)
 		var wg sync.WaitGroup
